@@ -131,14 +131,18 @@ def value_pairs(draw, alphabet):
     text = values.TEXT_SMALL if alphabet == 'quote-free' else SEP_TEXT
     text = st.one_of(text, text, st.sampled_from(['a b', 'a  b', 'a\tb', 'a\nb', ' a', 'a ', '\t', ' ', '  ', 'a b ', '\n']))
     if draw(st.integers(0, 40)) == 0:
-        # long values: two 1500-element lists / 6000-character strings differing only near the end
-        n = draw(st.integers(1200, 1600))
+        # long values: two 300..1600-element lists / 1200..6400-character strings differing in one place - near the
+        # start, in the middle or at the very end
+        n = draw(st.integers(300, 1600))
+        where = draw(st.sampled_from(['end', 'middle', 'any']))
         if draw(st.booleans()):
+            k = {'end': n - 1, 'middle': n // 2}.get(where, draw(st.integers(0, n - 1)))
             v = list(range(n))
-            v2 = list(range(n - 1)) + [n]
+            v2 = v[:k] + [n] + v[k + 1:]
         else:
+            k = {'end': 4 * n - 1, 'middle': 2 * n}.get(where, draw(st.integers(0, 4 * n - 1)))
             v = 'x' * n * 4
-            v2 = 'x' * (n * 4 - 1) + 'y'
+            v2 = v[:k] + 'y' + v[k + 1:]
         return {'values': True, 'alphabet': alphabet, 'v': v, 'v2': v2, 'long': True}
     base = values.json_values(text=text, max_leaves=8)
     v = draw(base)
